@@ -57,7 +57,7 @@ def overlay_map():
 PARAMS = {
     #            mc cfg            mc timeout  sim num depth   gen histories len   K
     "quick":    (["IRCMC_small.cfg"], 300,     150, 22,         90, 45,           3),
-    "thorough": (["IRCMC_small.cfg", "IRCMC_deep.cfg"], 3000, 1500, 30, 600, 60,  5),
+    "thorough": (["IRCMC_small.cfg", "IRCMC_deep.cfg", "IRCMC_deepall.cfg"], 1500, 1500, 30, 600, 60,  5),
 }
 FANOUT = {"quick": 4, "thorough": 3}     # fan-out probes from the final state of every n-th history
 EDGECFG = {"quick": "IRCMC_edges1.cfg", "thorough": "IRCMC_edges2.cfg"
